@@ -24,6 +24,7 @@ TOLERANCES = {"position": "0.25 px * scale (template-free: 0.2 + 0.2*|m| px, the
               "align-d?rot features": "2e-4", "score": ">= 0.9 (ZNCC/NCC)"}
 ASSUMPTIONS = ["for isotropic (max, step) ranges the candidate list is taken from acryo._rotation.normalize_rotations (its grid is C06's business)",
                "blob density stays inside the ball inscribed in the box under every searched rotation and shift"]
+RULE += (" " + "Also: several templates handed to loader.align as a list or a 4-D stack (the general entry point forwarding to the multi-template route).")
 
 MODELS = ["ZNCC", "NCC", "PCC"]
 
@@ -144,7 +145,14 @@ def run_alignment(d, c):
         raise HarnessError(kind)
 
     if kind == "multi":
-        out = loader.align_multi_templates(list(c["templates"]), max_shifts=ms, alignment_model=Model, **kw)
+        via = d.get("multi_via", "multi")
+        if via == "align-list" and len(c["templates"]) > 1:
+            # several templates handed to the general entry point, which forwards to the multi-template route
+            out = loader.align(list(c["templates"]), max_shifts=ms, alignment_model=Model, **kw)
+        elif via == "align-stack" and len(c["templates"]) > 1:
+            out = loader.align(np.stack(c["templates"], axis=0), max_shifts=ms, alignment_model=Model, **kw)
+        else:
+            out = loader.align_multi_templates(list(c["templates"]), max_shifts=ms, alignment_model=Model, **kw)
         return out.molecules
     if kind == "notemplate":
         out = loader.align_no_template(max_shifts=ms, output_shape=c["shape"], alignment_model=Model, **kw)
@@ -313,7 +321,7 @@ def cases(draw, kinds=("single", "batch", "group", "mock", "multi", "notemplate"
         })
     return {"loader": kind, "model": model, "shape": shape, "scale": scale, "order": order, "max_shifts": ms,
             "ms_form": mform, "rots": rots, "blobsets": blobsets, "particles": parts, "ntomo": ntomo, "cell": cell,
-            "group_nt": draw(st.booleans())}
+            "group_nt": draw(st.booleans()), "multi_via": draw(st.sampled_from(["multi", "align-list", "align-stack"]))}
 
 
 def n_candidates(d):
